@@ -4,6 +4,7 @@ import (
 	"encoding/binary"
 	"fmt"
 	"io"
+	"math"
 
 	"github.com/xelaj/mtproto/internal/encoding/tl"
 )
@@ -21,6 +22,10 @@ func (*intermediate) getModeAnnouncement() []byte {
 }
 
 func (m *intermediate) WriteMsg(msg []byte) error {
+	if uint64(len(msg)) > math.MaxUint32 {
+		// the length field holds four bytes: a longer message can't be framed
+		return fmt.Errorf("message is too large for intermediate mode: %d bytes", len(msg))
+	}
 	size := make([]byte, tl.WordLen)
 	binary.LittleEndian.PutUint32(size, uint32(len(msg)))
 	if _, err := m.conn.Write(size); err != nil {
